@@ -28,9 +28,11 @@ pub fn world(_tier: Tier, world_no: u64, mut tape: Tape) -> WorldReport {
             world: world_no,
             ..Default::default()
         };
-        if let Err(p) = guarded(|| inner(tape, &mut rep)) {
+        let mut tape = tape;
+        if let Err(p) = guarded(|| inner(&mut tape, &mut rep)) {
             rep.harness_error = Some(format!("harness panic: {} at {}:{}", p.message, p.file, p.line));
         }
+        rep.tape = tape.data.clone();
         rep
     })
 }
@@ -101,13 +103,17 @@ fn run_item(chain: &SimChain, comp: &mut SimCompiler, item: &HistItem, log: &mut
         res.rounds.len(),
         comp.inner.latest_tx_body.is_some()
     ));
-    (res.outcome, res.polls, g.res_calls, res.rounds.len())
+    (res.outcome, res.polls, g.res_calls, comp.compiles)
 }
 
 fn same(a: &Outcome, b: &Outcome) -> bool {
     match (a, b) {
         (Outcome::Ok(x), Outcome::Ok(y)) => x.payload == y.payload && x.hash == y.hash && x.fee == y.fee,
-        (Outcome::Err { kind: x, .. }, Outcome::Err { kind: y, .. }) => x == y,
+        // the same *kind* of error: the enum path, not the block it names
+        (Outcome::Err { kind: x, .. }, Outcome::Err { kind: y, .. }) => {
+            let strip = |k: &str| k.split("InputNotResolved").next().map(|p| p.len()).map(|n| k[..(n + if k.contains("InputNotResolved") { 16 } else { 0 }).min(k.len())].to_string()).unwrap_or_default();
+            strip(x) == strip(y)
+        }
         (Outcome::Panic(x), Outcome::Panic(y)) => x.site() == y.site(),
         (Outcome::Cancelled(_), Outcome::Cancelled(_)) => true,
         (Outcome::Hung(_), Outcome::Hung(_)) => true,
@@ -123,20 +129,22 @@ fn describe(o: &Outcome) -> String {
     }
 }
 
-fn inner(mut t: Tape, rep: &mut WorldReport) {
+fn inner(t: &mut Tape, rep: &mut WorldReport) {
     let hseed_target = 1 + t.draw(1 << 32);
-    let mut pp = draw_pparams(&mut t, false);
+    let mut pp = draw_pparams(t, false);
     pp.mainnet = t.chance(1, 5);
     let profile = *t.pick(&[Profile::Fee, Profile::Rich, Profile::Selection]);
     let force_min_utxo = if t.chance(3, 4) { Some(true) } else { None };
+    let optional_bias = t.chance(1, 2);
     let program = gen_program(
-        &mut t,
+        t,
         &GenCfg {
             profile,
             mainnet: pp.mainnet,
             max_txs: 3,
             force_min_utxo,
             rich_directives: false,
+            optional_bias,
         },
     );
     let source = program.source();
@@ -150,10 +158,16 @@ fn inner(mut t: Tape, rep: &mut WorldReport) {
     let mut w0 = World::new(Tape::replay(vec![]));
     let lcfg = LedgerCfg {
         size: 1 + t.index(6),
-        dist: if t.chance(1, 4) { AmountDist::Boundary } else { AmountDist::Comfortable },
-        ties: t.chance(1, 3),
+        dist: match t.draw(3) {
+            0 => AmountDist::Tight,
+            _ => AmountDist::Comfortable,
+        },
+        // no tied candidates: which of two equal UTxOs is picked depends on how much hash entropy the
+        // thread has consumed, which a diverging first round changes - not what C20 is about
+        ties: false,
+        distinct: true,
     };
-    gen_ledger(&mut t, &mut w0, &program, &lcfg);
+    gen_ledger(t, &mut w0, &program, &lcfg);
     let chain = w0.chain.clone();
 
     let mk_item = |t: &mut Tape, natural: bool| -> HistItem {
@@ -180,8 +194,8 @@ fn inner(mut t: Tape, rep: &mut WorldReport) {
         }
     };
     let hlen = t.weighted(&[1, 4, 3, 2, 1]);
-    let mut history: Vec<HistItem> = (0..hlen).map(|_| mk_item(&mut t, false)).collect();
-    let target = mk_item(&mut t, true);
+    let mut history: Vec<HistItem> = (0..hlen).map(|_| mk_item(t, false)).collect();
+    let target = mk_item(t, true);
     let sweep = hlen > 0 && t.chance(1, 4);
     let target_min_utxo = uses_min_utxo(&target.tx);
 
@@ -192,7 +206,8 @@ fn inner(mut t: Tape, rep: &mut WorldReport) {
     // consumes exactly the same hash entropy in both
     let mut fresh_comp = SimCompiler::new(make_compiler(&pp));
     fresh_comp.record = false;
-    let fresh = crate::entropy::in_world(hseed_target, || run_item(&chain, &mut fresh_comp, &target, &mut fresh_log).0);
+    let (fresh, _, _, fresh_compiles) = crate::entropy::in_world(hseed_target, || run_item(&chain, &mut fresh_comp, &target, &mut fresh_log));
+    let cap = target.max_rounds.max(3) + 2;
     log.push(format!("fresh arm: {}", describe(&fresh)));
 
     // ---- history arm(s)
@@ -275,7 +290,7 @@ fn inner(mut t: Tape, rep: &mut WorldReport) {
         if stale_body {
             rep.fire("reuse");
         }
-        let hist = crate::entropy::in_world(hseed_target, || run_item(&chain, &mut c, &target, &mut vlog).0);
+        let (hist, _, _, hist_compiles) = crate::entropy::in_world(hseed_target, || run_item(&chain, &mut c, &target, &mut vlog));
         evals += 1;
         sig.str(&hist.kind().chars().take(20).collect::<String>());
         sig.u64(stale_body as u64);
@@ -284,7 +299,16 @@ fn inner(mut t: Tape, rep: &mut WorldReport) {
         }
         if !same(&hist, &fresh) {
             let shape = if target_min_utxo && stale_body {
-                "target-uses-min_utxo+body-left-by-history"
+                // which way can the stale first round of the target have mattered?
+                if matches!(hist, Outcome::Err { .. } | Outcome::Panic(_)) && hist_compiles == 0 {
+                    "min_utxo+stale-body/first-round-fails"
+                } else if matches!(fresh, Outcome::Err { .. }) && fresh_compiles == 0 {
+                    "min_utxo+stale-body/fresh-first-round-fails"
+                } else if hist_compiles >= cap || fresh_compiles >= cap {
+                    "min_utxo+stale-body/differs-at-round-cap"
+                } else {
+                    "min_utxo+stale-body/converged-differently"
+                }
             } else if target_min_utxo {
                 "target-uses-min_utxo"
             } else {
@@ -330,5 +354,4 @@ fn inner(mut t: Tape, rep: &mut WorldReport) {
         "target_uses_min_utxo": target_min_utxo,
         "events": log,
     }));
-    rep.tape = t.data.clone();
 }
